@@ -131,17 +131,17 @@ func init() {
 		Level:     "exploration",
 		Technique: "marker planting: every string-valued position of rich configuration trees (file, dashboard integration, dashboard source) is replaced in turn by hostile strings; each variant runs decode → ValidateFix → Migrate → task loading → steps with reference lookups, notifications and a reorg deletion (and the real dashboard handlers); every statement text the fake Postgres receives (simple Query and Parse) is searched for the marker; chain data carries SQL metacharacters and its own marker",
 		Rule: "base configurations: 2 sources (url + urls[]), 4 file integrations (log with user unique/index lists and notifications; log with nested tuple components carrying filters and filter_refs, block-field filters and filter_refs; tx on two sources; trace sharing a table) plus a complete dashboard integration of the rich shape and a dashboard source. " +
-			"The JSON tree is walked generically; positions are grouped by path class (array indexes dropped, nested components collapsed); all variants of one path class run in one case. For the two control strings all linked occurrences of a name are renamed together (integration↔filter_ref.integration, source↔sources[].name, table↔filter_ref.table, column↔inputs/block/notification/unique/index/filter_ref.column); hostile strings are planted at one position only (a source definition is planted together with the references to it, otherwise the source is never used). " +
+			"The JSON tree is walked generically; positions are grouped by path class (array indexes dropped, nested components collapsed); the control variants of one path class run in one case (which judges the vacuity guard of the class), the hostile variants are spread evenly over the cases. For the two control strings all linked occurrences of a name are renamed together (integration↔filter_ref.integration, source↔sources[].name, table↔filter_ref.table, column↔inputs/block/notification/unique/index/filter_ref.column); hostile strings are planted at one position only (a source definition is planted together with the references to it, otherwise the source is never used). " +
 			"signature = (lifecycle, path class, string, outcome); a lifecycle is non-trivial when it was rejected or ran steps.",
 		Assumptions: []string{
 			"a violation is a hostile marker found in statement TEXT; parameters and COPY data are exempt (they are not text of a statement)",
-			"table.index[][] entries may carry a direction: the string 'm4rk desc' in that position is allowed in SQL text; every other hostile string there is a violation",
+			"table.index[][] entries may carry a direction: a planted value of the form '<identifier><spaces>asc|desc' in that position is allowed in SQL text; anything else there (text after the direction, other separators) is a violation",
 			"a position whose hostile value is accepted but never reaches SQL text (replaced, ignored or passed as a parameter) is not a violation: the statement restricts values that are spliced into SQL",
 			"values the JSON decoder or a closed value domain rejects (poll_duration, filter_agg, chainID) count as rejected",
 			"pg_url is not a position: the harness connects to its own fake server",
 			"the dashboard handlers are the real web.Handler.SaveIntegration/SaveSource with a real shovel.Manager; Manager.Restart is made to fail while loading (a stored integration naming a source that does not exist is present during the POST) so that no free-running runner goroutines exist; tasks are then built with the same loadTasks (VerifLoadTasks) and stepped by the harness",
 			"the operator creates the table a dashboard integration names (shovel never migrates database-stored integrations)",
-			"tasks on database-stored sources are loaded (their SQL, e.g. set application_name, is scanned) but not stepped: a stored source has poll duration 0 and the first head query of its client panics in time.NewTicker (jrpc2.httpPoll), which is outside this property",
+			"tasks on database-stored sources are stepped like the others (their head poller ticks every second and ends when the scenario retires the node)",
 			"hyphen is accepted by validation but is not an identifier character: the hyphen control only has to pass validation, the plain control has to run the whole lifecycle",
 		},
 		NCases:           func(tier string) int { return c15Shards * c15NBases(tier) },
@@ -211,7 +211,12 @@ func strs(xs ...string) []any {
 // c15Rich is the integration with nested components, filters and references.
 // complete = the declaration names the identity fields itself (what a
 // database-stored integration needs, since it is run without ValidateFix).
-func c15Rich(b *c15Base, name, table string, srcs []any, complete bool) map[string]any {
+// dash = the dashboard submission: references WITHOUT an integration (table and
+// column only, plus filter_arg so that the filter is evaluated) also sit on a
+// top-level input and on a block field; in a file such references are only
+// possible on nested components (ValidateFilterRefs rejects them elsewhere).
+func c15Rich(b *c15Base, name, table string, srcs []any, complete, dash bool) map[string]any {
+	bareRef := func() map[string]any { return map[string]any{"table": "t_a", "column": "who"} }
 	inner := []any{
 		map[string]any{"name": "x", "type": "bytes32", "column": "d_x", "filter_op": "contains", "filter_ref": c15Ref("ig-a", "t_a", "who")},
 	}
@@ -220,6 +225,7 @@ func c15Rich(b *c15Base, name, table string, srcs []any, complete bool) map[stri
 		map[string]any{"name": "v", "type": "uint256", "column": "d_v", "filter_op": "gt", "filter_arg": strs("0")},
 		map[string]any{"name": "memo", "type": "string", "column": "memo", "filter_op": "ne", "filter_arg": strs("nope")},
 		map[string]any{"name": "inner", "type": "tuple", "components": inner},
+		map[string]any{"name": "w", "type": "address", "column": "d_w", "filter_op": "contains", "filter_arg": strs(hex0x(b.a1)), "filter_ref": bareRef()},
 	}
 	inputs := []any{
 		map[string]any{"indexed": true, "name": "from", "type": "address", "column": "f", "filter_op": "contains", "filter_ref": c15Ref("ig-a", "t_a", "who")},
@@ -227,13 +233,19 @@ func c15Rich(b *c15Base, name, table string, srcs []any, complete bool) map[stri
 		map[string]any{"name": "d", "type": "tuple", "components": comps},
 		map[string]any{"name": "note", "type": "bytes", "column": "note"},
 	}
-	cols := c15Cols("f", "bytea", "dst", "bytea", "d_a", "bytea", "d_v", "numeric", "memo", "text", "d_x", "bytea", "note", "bytea",
+	if dash {
+		inputs[1] = map[string]any{"indexed": true, "name": "to", "type": "address", "column": "dst", "filter_op": "contains", "filter_arg": strs(hex0x(b.a2)), "filter_ref": bareRef()}
+	}
+	cols := c15Cols("f", "bytea", "dst", "bytea", "d_a", "bytea", "d_v", "numeric", "memo", "text", "d_x", "bytea", "d_w", "bytea", "note", "bytea",
 		"log_addr", "bytea", "tx_to", "bytea", "tx_input", "bytea", "block_time", "numeric", "spare", "text")
 	block := []any{
 		map[string]any{"name": "log_addr", "column": "log_addr", "filter_op": "contains", "filter_arg": strs(hex0x(b.a3))},
 		map[string]any{"name": "tx_to", "column": "tx_to", "filter_op": "contains", "filter_ref": c15Ref("ig-a", "t_a", "who")},
 		map[string]any{"name": "tx_input", "column": "tx_input"},
 		map[string]any{"name": "block_time", "column": "block_time"},
+	}
+	if dash {
+		block[2] = map[string]any{"name": "tx_input", "column": "tx_input", "filter_op": "contains", "filter_arg": strs(hex0x([]byte(c15ChainMark))), "filter_ref": bareRef()}
 	}
 	tbl := map[string]any{"name": table, "columns": cols, "index": []any{strs("f"), strs("d_a", "block_num desc")}}
 	if complete {
@@ -274,6 +286,7 @@ func c15MakeBase(seed uint64, variant int) *c15Base {
 			refmodel.F("v", refmodel.Uint(256), "d_v"),
 			refmodel.F("memo", refmodel.String(), "memo"),
 			refmodel.F("inner", refmodel.TupleOf(refmodel.F("x", refmodel.BytesN(32), "d_x")), ""),
+			refmodel.F("w", refmodel.Address(), "d_w"),
 		)},
 		{Name: "note", Type: refmodel.Bytes(), Column: "note"},
 	}
@@ -295,7 +308,7 @@ func c15MakeBase(seed uint64, variant int) *c15Base {
 			map[string]any{"name": "log_addr", "column": "log_addr", "filter_op": "contains", "filter_arg": strs(hex0x(b.a3))},
 		},
 	}
-	igB := c15Rich(b, "ig-b", "t_b", []any{srcRef("src-a")}, variant%2 == 1)
+	igB := c15Rich(b, "ig-b", "t_b", []any{srcRef("src-a")}, variant%2 == 1, false)
 	igC := map[string]any{
 		"name": "ig-c", "enabled": true, "sources": []any{srcRef("src-a"), srcRef("src-b")},
 		"table": map[string]any{
@@ -339,7 +352,7 @@ func c15MakeBase(seed uint64, variant int) *c15Base {
 		},
 		"integrations":      igs,
 		"$dash_source":      map[string]any{"chainID": "9", "name": "src-d", "ethURL": "@@B/dash"},
-		"$dash_integration": c15Rich(b, "ig-e", "t_e", []any{srcRef("src-a"), srcRef("src-d")}, true),
+		"$dash_integration": c15Rich(b, "ig-e", "t_e", []any{srcRef("src-a"), srcRef("src-d")}, true, true),
 	}
 	return b
 }
@@ -363,7 +376,7 @@ func (b *c15Base) content() simnode.Content {
 			tx.Logs = append(tx.Logs,
 				model.MakeLog("Reg", b.regIn, []any{b.a1, big.NewInt(int64(7 + i))}, b.a3),
 				model.MakeLog("Xfer", b.xferIn, []any{b.a1, b.a2,
-					[]any{b.a1, big.NewInt(5), c15ChainMark + " memo", []any{append([]byte(c15ChainMark), r.Bytes(22)...)}},
+					[]any{b.a1, big.NewInt(5), c15ChainMark + " memo", []any{append([]byte(c15ChainMark), r.Bytes(22)...)}, b.a1},
 					append([]byte(c15ChainMark), r.Bytes(5)...)}, b.a3),
 				simnode.Log{Addr: b.a3, Topics: [][]byte{r.Bytes(32)}, Data: []byte(c15ChainMark)},
 			)
@@ -646,7 +659,7 @@ func c15Plant(doc map[string]any, groups map[string]c15Pos, pos c15Pos, s c15Str
 	nd := c15Copy(doc).(map[string]any)
 	setKeep := func(path []any) {
 		old, _ := c15Get(nd, path).(string)
-		v := s.Val
+		v := s.value(old)
 		// index entries keep their direction suffix
 		if f := strings.Fields(old); len(f) == 2 && len(path) >= 3 && path[len(path)-3] == "index" && !strings.Contains(s.Val, " ") {
 			v = s.Val + " " + f[1]
@@ -668,7 +681,7 @@ func c15Plant(doc map[string]any, groups map[string]c15Pos, pos c15Pos, s c15Str
 		}
 	}
 	if s.Hostile {
-		c15Set(nd, pos.path, s.Val)
+		c15Set(nd, pos.path, s.value(pos.val))
 	} else {
 		setKeep(pos.path)
 	}
@@ -1106,8 +1119,6 @@ func c15Dashboard(c *vk.Case, b *c15Base, env *scen.Env, w *c15World, doc map[st
 		return "failed-later:load-tasks"
 	}
 	*tasks = ts
-	// stored sources have no poll duration: stepping their tasks is outside this property
-	skip[fmt.Sprint(src["name"])] = true
 	return ""
 }
 
@@ -1196,10 +1207,12 @@ func c15Run(c *vk.Case) {
 		c.Obs("positions", int64(len(all)))
 		c.Obs("path_classes", int64(len(order)))
 	}
+	// work distribution: the case owning a path class (class k belongs to shard k % c15Shards) runs the
+	// control strings at all its positions and judges the vacuity guard; the hostile strings of position
+	// number g (counted over all classes) run in shard g % c15Shards, so the load is even
+	g := 0
 	for k, key := range order {
-		if k%c15Shards != shard {
-			continue
-		}
+		owner := k%c15Shards == shard
 		j := byClass[key]
 		suffix := ""
 		if j.lifecycle == "dashboard" {
@@ -1208,15 +1221,23 @@ func c15Run(c *vk.Case) {
 		controlRan, controlAccepted, controlInSQL := 0, 0, 0
 		var controlNotes []string
 		for _, p := range j.pos {
+			g++
+			mine := g%c15Shards == shard
 			for _, s := range strsT {
+				if !s.appliesTo(j.class) {
+					continue
+				}
+				if (s.Hostile && !mine) || (!s.Hostile && !owner) {
+					continue
+				}
 				if strings.Contains(j.class, "url") || strings.Contains(j.class, "URL") {
-					if _, err := url.Parse(s.Val); err != nil {
+					if _, err := url.Parse(s.value(p.val)); err != nil {
 						c.Seen("not_planted", j.class+"|"+s.ID+"|url.Parse fails: jrpc2.MustURL would exit the process")
 						continue
 					}
 				}
 				doc := c15Plant(b.doc, groups, p, s)
-				o := &c15Outcome{Lifecycle: j.lifecycle, Path: c15PathString(p.path), Class: j.class, String: s.ID, Value: s.Val}
+				o := &c15Outcome{Lifecycle: j.lifecycle, Path: c15PathString(p.path), Class: j.class, String: s.ID, Value: s.value(p.val)}
 				wit := c15Lifecycle(c, b, doc, j.lifecycle, o)
 				c.SetSig("%s|%s|%s|%s", j.lifecycle, j.class, s.ID, o.Outcome)
 				c.Seen("outcomes_"+j.lifecycle+"_"+s.ID, j.class+" => "+o.Outcome)
@@ -1244,14 +1265,17 @@ func c15Run(c *vk.Case) {
 				if !inSQL {
 					continue
 				}
-				if s.ID == "space-desc" && strings.HasSuffix(j.class, "table.index[][]") {
+				if c15DirectionOnly.MatchString(s.value(p.val)) && strings.HasSuffix(j.class, "table.index[][]") {
 					c.Seen("allowed_in_sql", j.class+suffix+"|"+s.ID)
 					continue
 				}
 				c.Violate("unvalidated-in-sql:path="+j.class+suffix,
-					merge(wit, map[string]any{"position": o.Path, "planted": s.Val, "outcome": o.Outcome, "stage": o.Stage, "error": o.Error, "statements_with_marker": o.Marked}),
-					"the value %q planted at %s (%s lifecycle) appears in SQL text: %s", s.Val, o.Path, j.lifecycle, firstLines(o.Marked[0], 1))
+					merge(wit, map[string]any{"position": o.Path, "planted": s.value(p.val), "outcome": o.Outcome, "stage": o.Stage, "error": o.Error, "statements_with_marker": o.Marked}),
+					"the value %q planted at %s (%s lifecycle) appears in SQL text: %s", s.value(p.val), o.Path, j.lifecycle, firstLines(o.Marked[0], 1))
 			}
+		}
+		if !owner {
+			continue
 		}
 		if controlRan == 0 && !c15ClosedRun[j.class] {
 			c.Inconclusive("vacuous: the plain control string never ran the lifecycle at any position of %s (%s): %v", j.class, j.lifecycle, shortList(controlNotes, 3))
